@@ -572,3 +572,26 @@ func joinUint64Slice(a []uint64) string {
 	}
 	return "[" + strings.Join(other, ",") + "]"
 }
+
+// unquoteString returns the value of a double-quoted string token. The
+// grammar accepts any character but an unescaped double quote between the
+// quotes; strconv.Unquote implements Go's escapes but rejects some of those
+// strings (for instance one with a raw newline), and the value must not be
+// silently replaced by the empty string then: fall back to removing the quotes
+// and resolving the two escapes the grammar itself knows, \" and \\.
+func unquoteString(text string) string {
+	if s, err := strconv.Unquote(text); err == nil {
+		return s
+	}
+	if len(text) >= 2 {
+		text = text[1 : len(text)-1]
+	}
+	var buf bytes.Buffer
+	for i := 0; i < len(text); i++ {
+		if text[i] == '\\' && i+1 < len(text) && (text[i+1] == '"' || text[i+1] == '\\') {
+			i++
+		}
+		buf.WriteByte(text[i])
+	}
+	return buf.String()
+}
